@@ -1,6 +1,8 @@
 package htsim
 
 import (
+	"bytes"
+	"crypto/ed25519"
 	"encoding/json"
 	"fmt"
 	"strings"
@@ -38,6 +40,7 @@ type c12Step struct {
 	Passwords []string `json:"pws,omitempty"`
 	MsgID     int      `json:"id,omitempty"`
 	Op        string   `json:"op,omitempty"`
+	PubKey    bool     `json:"pubkey,omitempty"` // sshlogin: a public key is offered (and must be refused) before the passwords
 }
 
 func credString(a c12Attempt) string { return a.User + ":" + a.Pass }
@@ -74,7 +77,7 @@ func genC12(seed uint64, idx int, tier string) *Scenario {
 		for c := 0; c < nconn; c++ {
 			a := Actor{Kind: "sshc", Name: fmt.Sprintf("c%d", c), Src: clientAddr(c), Dst: sensorIP + ":22"}
 			for k := r.Range(1, 2); k > 0; k-- {
-				st := c12Step{Kind: "sshlogin", User: r.Pick(c12Users), MsgID: 31000 + c*100 + k}
+				st := c12Step{Kind: "sshlogin", User: r.Pick(c12Users), MsgID: 31000 + c*100 + k, PubKey: r.Chance(0.3)}
 				for j := r.Range(1, 4); j > 0; j-- {
 					st.Passwords = append(st.Passwords, r.Pick(c12Pass))
 				}
@@ -301,10 +304,17 @@ func runC12(t *testing.T, sc *Scenario) Result {
 				}
 				defer ep.Close()
 				i := 0
+				var pre []ssh.AuthMethod
+				if st.PubKey {
+					// an earlier failed attempt of another kind must not change what the passwords achieve
+					if signer, err := ssh.NewSignerFromKey(ed25519.NewKeyFromSeed(bytes.Repeat([]byte{9}, 32))); err == nil {
+						pre = append(pre, ssh.PublicKeys(signer))
+					}
+				}
 				cfg := &ssh.ClientConfig{
 					User:            st.User,
 					HostKeyCallback: ssh.InsecureIgnoreHostKey(),
-					Auth: []ssh.AuthMethod{ssh.RetryableAuthMethod(ssh.PasswordCallback(func() (string, error) {
+					Auth: append(pre, ssh.RetryableAuthMethod(ssh.PasswordCallback(func() (string, error) {
 						if i >= len(st.Passwords) {
 							return "", fmt.Errorf("no more passwords")
 						}
@@ -312,7 +322,7 @@ func runC12(t *testing.T, sc *Scenario) Result {
 						i++
 						out.Attempts = append(out.Attempts, p)
 						return p, nil
-					}), len(st.Passwords))},
+					}), len(st.Passwords))),
 				}
 				c, _, _, err := ssh.NewClientConn(ep, a.Dst, cfg)
 				if err != nil {
@@ -407,6 +417,19 @@ func c12CheckSSH(sc *Scenario, obs *Obs, creds []string, outs map[string]*sshOut
 					res.Violate("auth-event-wrong-credentials", "ssh", fmt.Sprintf("attempt %d presented %q/%q, event records %v/%v", i, user, out.Attempts[i], e["ssh.username"], e["ssh.password"]))
 					return
 				}
+			}
+			if st.PubKey {
+				n := 0
+				for _, e := range obs.Events {
+					if e.M["type"] == "publickey-authentication" && eventSrc(e.M) == src.String() && fmt.Sprint(e.M["ssh.username"]) == user {
+						n++
+					}
+				}
+				if n == 0 {
+					res.Violate("auth-event-count", "ssh", fmt.Sprintf("user %q offered a public key first: no publickey-authentication event attributed to %s", user, src))
+					return
+				}
+				res.probe("ssh-publickey-offers", 1)
 			}
 			res.probe("ssh-logins", 1)
 			res.probe("ssh-attempts", len(out.Attempts))
